@@ -4,8 +4,9 @@
 # stores it under /verif/seeded/Cnn/, then runs ./check Cnn against the mutated tree (AGV_REPO).
 # Uses one persistent scratch worktree + shadow so builds are incremental.
 PID="$1"; OUT="${2:-/tmp/agv-seed-$PID-out}"; NAME="${3:-$PID}"
-WT=/var/tmp/agv-mut/repo; SH=/var/tmp/agv-mut/shadow; TGT=/var/tmp/agv-mut/target
-LOG=/var/tmp/agv-mut/logs/$NAME; mkdir -p "$LOG" /var/tmp/agv-mut
+MUT="${AGV_MUT:-/var/tmp/agv-mut}"
+WT=$MUT/repo; SH=$MUT/shadow; TGT=$MUT/target
+LOG=/var/tmp/agv-mut/logs/$NAME; mkdir -p "$LOG" "$MUT"
 export CARGO_NET_OFFLINE=true CARGO_TARGET_DIR=$TGT
 set -u
 if [ ! -d "$WT" ]; then git -C /repo worktree add -q "$WT" HEAD || exit 2; fi
